@@ -17,12 +17,16 @@ use crate::proto::message::mod_Message::BlockPresenceType;
 use crate::proto::message::mod_Message::Wantlist;
 use crate::proto::message::Message;
 
+#[cfg(beetswap_verif)]
+#[path = "verif/incoming_stream.rs"]
+pub mod verif;
+
 /// Stream that reads `Message` and converts it to `IncomingMessage`.
 ///
 /// On fatal errors `None` is returned which instruct `SelectAll` to drop the stream.
 pub(crate) struct IncomingStream<const S: usize> {
     multihasher: Arc<MultihasherTable<S>>,
-    stream: FramedRead<libp2p_swarm::Stream, Codec>,
+    stream: FramedRead<crate::RawStream, Codec>,
     processing: Fuse<BoxFuture<'static, Option<IncomingMessage<S>>>>,
 }
 
@@ -45,7 +49,7 @@ pub struct IncomingMessage<const S: usize> {
 }
 
 impl<const S: usize> IncomingStream<S> {
-    pub(crate) fn new(stream: libp2p_swarm::Stream, multihasher: Arc<MultihasherTable<S>>) -> Self {
+    pub(crate) fn new(stream: crate::RawStream, multihasher: Arc<MultihasherTable<S>>) -> Self {
         IncomingStream {
             multihasher,
             stream: FramedRead::new(stream, Codec),
